@@ -28,7 +28,8 @@ def build_oracle():
                                                 os.path.join(ODIR, "extract.v"), os.path.join(ODIR, "build.sh")])
     if os.path.exists(ORACLE) and os.path.getmtime(ORACLE) >= newest:
         return True, "up to date"
-    rc, out = C.sh(["sh", os.path.join(ODIR, "build.sh"), C.COQ], timeout=600)
+    with C.GlobalLock("oracle"):
+        rc, out = C.sh(["sh", os.path.join(ODIR, "build.sh"), C.COQ], timeout=600)
     return rc == 0 and os.path.exists(ORACLE), out
 
 def build_server():
